@@ -30,7 +30,7 @@ func drawSVD(t *rapid.T) svdCase {
 	c := svdCase{
 		M:     dimN(t, "m", 1),
 		N:     dimN(t, "n", 1),
-		Class: rapid.SampledFrom([]string{"well", "well", "well", "illcond", "rankdef", "zero"}).Draw(t, "class"),
+		Class: rapid.SampledFrom([]string{"well", "well", "well", "well", "illcond", "rankdef", "zero", "allzero"}).Draw(t, "class"),
 		LogK:  rapid.SampledFrom([]int{0, 1, 3, 6}).Draw(t, "logk"),
 		Kind:  rapid.IntRange(0, len(svdKinds)-1).Draw(t, "kind"),
 		Reuse: rapid.IntRange(0, 3).Draw(t, "reuse") == 0,
@@ -91,7 +91,8 @@ func mnOracleK(what string, W, x, b *M, kappa2, factor float64) *vk.Failure {
 }
 
 func checkSVD(c svdCase) *vk.Failure {
-	f := checkSVDInner(c)
+	var lt late
+	f := checkSVDInner(c, &lt)
 	// Open finding: for numerically rank-deficient input with min(m,n) > 128 (the
 	// blocked bidiagonalisation path of Dgesvd) the singular vectors lose
 	// orthogonality. Failures on such inputs are collected under one key so that
@@ -100,10 +101,78 @@ func checkSVD(c svdCase) *vk.Failure {
 		f.Msg = f.Key + ": " + f.Msg
 		f.Key = "rankdef-blocked-path"
 	}
+	if f == nil {
+		f = lt.f
+	}
 	return f
 }
 
-func checkSVDInner(c svdCase) *vk.Failure {
+// ---- documented behaviour after a failed factorization ------------------------
+
+// A Factorize that returns false must leave the receiver in the "no
+// factorization" state: Kind() == -1 and the accessors panic (documented on
+// SVD.Factorize and SVD.Kind). The only inputs known to make Gesvd fail are
+// non-finite; nothing is asserted when Factorize returns true.
+type svdFailCase struct {
+	M, N  int
+	Pos   int
+	Kind  int
+	Reuse bool
+}
+
+func checkSVDFail(c svdFailCase) *vk.Failure {
+	vk.Sample("svd-failed", c)
+	a := mat.NewDense(c.M, c.N, nil)
+	for i := 0; i < c.M; i++ {
+		for j := 0; j < c.N; j++ {
+			a.Set(i, j, float64(1+(i*c.N+j)%7))
+		}
+	}
+	a.Set(c.Pos/c.N%c.M, c.Pos%c.N, math.NaN())
+	var svd mat.SVD
+	if c.Reuse {
+		svd.Factorize(mat.NewDense(2, 2, []float64{1, 2, 3, 5}), mat.SVDFull)
+	}
+	var fok bool
+	if res := vk.Call(func() { fok = svd.Factorize(a, svdKinds[c.Kind]) }); res.Outcome != vk.Returned {
+		// e.g. "lapack: cfrom is NaN": a non-finite input is outside the domain of
+		// the property, only the ok == false contract is of interest here
+		vk.Class("svd-failed/factorize-panicked")
+		return nil
+	}
+	if fok {
+		vk.Class("svd-failed/factorize-returned-true")
+		return nil
+	}
+	vk.Class("svd-failed/factorize-returned-false")
+	vk.NonTrivial("svd-failed", c.M, c.N, c.Pos, c.Kind, c.Reuse)
+	if k := svd.Kind(); k != -1 {
+		return failf("kind-after-failure", "Factorize returned false but Kind()=%d, documented -1 when no decomposition has been computed", k)
+	}
+	if f := vk.MustPanic("values-after-failure", func() { svd.Values(nil) }); f != nil {
+		return f
+	}
+	if f := vk.MustPanic("cond-after-failure", func() { svd.Cond() }); f != nil {
+		return f
+	}
+	return vk.MustPanic("uto-after-failure", func() { var d mat.Dense; svd.UTo(&d) })
+}
+
+func TestSVDFailed(t *testing.T) {
+	var cases []svdFailCase
+	for _, mn := range [][2]int{{1, 1}, {3, 3}, {4, 2}, {2, 5}} {
+		for pos := 0; pos < mn[0]*mn[1]; pos += 3 {
+			for _, kind := range []int{0, 5, 6} {
+				for _, reuse := range []bool{false, true} {
+					cases = append(cases, svdFailCase{mn[0], mn[1], pos, kind, reuse})
+				}
+			}
+		}
+	}
+	vk.Enumerate(t, "svd-failed", len(cases), func(i int) svdFailCase { return cases[i] }, checkSVDFail)
+}
+
+func checkSVDInner(c svdCase, lt *late) *vk.Failure {
 	m, n := c.M, c.N
 	k := minInt(m, n)
 	mx := maxInt(m, n)
@@ -151,12 +220,20 @@ func checkSVDInner(c svdCase) *vk.Failure {
 		if !(s[i] >= 0) || (i > 0 && !(s[i] <= s[i-1])) {
 			return failf("values-order", "Values not non-negative descending at %d: %v", i, s)
 		}
-		if c.Class != "zero" && !leq(math.Abs(s[i]-g.sigma[i]), tolS) {
+		if c.Class != "zero" && !leq(math.Abs(s[i]-g.sigma[i]), tolS+0) {
 			return failf("values", "%d×%d sigma[%d]=%g prescribed %g tol %g", m, n, i, s[i], g.sigma[i], tolS)
 		}
 	}
-	if cond := svd.Cond(); !sameBits(cond, s[0]/s[k-1]) {
-		return failf("cond", "Cond()=%v but Values give %v", cond, s[0]/s[k-1])
+	if cond := svd.Cond(); s[k-1] != 0 {
+		if !sameBits(cond, s[0]/s[k-1]) {
+			return failf("cond", "Cond()=%v but Values give %v", cond, s[0]/s[k-1])
+		}
+	} else if !math.IsInf(cond, 1) {
+		// A zero smallest singular value means singular: the condition number is
+		// +Inf as LU/Cholesky/QR report it. 0/0 (zero matrix) must not surface as
+		// NaN, which passes every "cond > tolerance" test silently, nor x/-0 as
+		// -Inf. Reported behind the rest of the case.
+		lt.add(failf("cond-singular", "%d×%d class %s: SVD.Cond()=%v although the smallest singular value is %v (largest %v): want +Inf", m, n, c.Class, cond, s[k-1], s[0]))
 	}
 	if c.Class == "well" || c.Class == "rankdef" {
 		if r := svd.Rank(1e-10); r != g.rank {
@@ -232,7 +309,7 @@ func checkSVDInner(c svdCase) *vk.Failure {
 
 	// SolveTo / SolveVecTo
 	rank := g.rank
-	if c.Class == "zero" {
+	if c.Class == "zero" || c.Class == "allzero" {
 		rank = svd.Rank(1e-10)
 		if rank < 1 {
 			return nil
